@@ -277,8 +277,16 @@ func (k Key) Expires() time.Time {
 // SetExpires sets the expiration date for the key.
 func (k Key) SetExpires(value time.Time) {
 	expire := value.Unix()
-	if expire > 0 {
+	if expire != 0 {
+		// The expiration is stored as 32-bit seconds since the offset and zero means
+		// no expiration: a date outside of that range becomes the nearest one in it.
 		expire = expire - timeOffset
+		if expire < 1 {
+			expire = 1
+		}
+		if expire > math.MaxUint32 {
+			expire = math.MaxUint32
+		}
 	}
 	k[20] = byte(uint32(expire) >> 24)
 	k[21] = byte(uint32(expire) >> 16)
